@@ -244,7 +244,7 @@ func TestVerifC29(t *testing.T) {
 		}
 	}()
 	verifutil.Main(t, &verifutil.Harness{
-		ID: "C29", Exec: verifC29Exec, Gen: verifC29Gen, Quick: 250, Thorough: 2500,
+		ID: "C29", Exec: verifC29Exec, Gen: verifC29Gen, Quick: 250, Thorough: 1200,
 		Class: func(op, impl string) string {
 			f := strings.Fields(op)
 			switch f[0] {
